@@ -74,11 +74,12 @@ let buffer_mode () =
         incr idx
     | "END" :: id :: _ ->
         let st = !s in
-        Printf.printf "FINAL\t%s\t%s\t%s\t%s\t%s\t%s\t%s\n" id (hexk st.pstart) (hexk st.pend)
+        Printf.printf "FINAL\t%s\t%s\t%s\t%s\t%s\t%s\t%s\t%s\n" id (hexk st.pstart) (hexk st.pend)
           (if st.closed then "1" else "0") (sn st.gen)
           (let ks = flushed_keys st in if ks = [] then "-" else String.concat "," (List.map hexk ks))
           (let l = List.filter (fun ((_, _), sent) -> sent) st.flog in
            if l = [] then "-" else String.concat "|" (List.map (fun ((g, b), _) -> sn g ^ ":" ^ fmt_buf b) l))
+          (hexk st.primary)
     | _ -> ());
   Printf.printf "STATS\tcases=%d\tops=%d\tmismatches=%d\n" !ncase !nops !mism
 
@@ -95,5 +96,19 @@ let resolve_mode () =
           (if covers sp r ks then "1" else "0") (if covers sp rp ks then "1" else "0")
     | _ -> ())
 
+(* mode "served": lines  S <id> <served regions start:end;... (end ~ = unbounded, - = empty key)> <keys>  -> served_covers *)
+let served_mode () =
+  read_lines (fun line ->
+    match split_tab line with
+    | "S" :: id :: sv :: ks :: _ ->
+        let rg s = match String.split_on_char ':' s with
+          | [a; b] -> (key_of a, (if b = "~" then None else Some (key_of b)))
+          | _ -> failwith "rgn" in
+        let served = if sv = "-" then [] else List.map rg (String.split_on_char ';' sv) in
+        Printf.printf "S\t%s\t%s\n" id (if served_covers served (keys_of ks) then "1" else "0")
+    | _ -> ())
+
 let () =
-  if Array.length Sys.argv > 1 && Sys.argv.(1) = "resolve" then resolve_mode () else buffer_mode ()
+  if Array.length Sys.argv > 1 && Sys.argv.(1) = "resolve" then resolve_mode ()
+  else if Array.length Sys.argv > 1 && Sys.argv.(1) = "served" then served_mode ()
+  else buffer_mode ()
